@@ -164,9 +164,15 @@ class SymBytes:
                 continue
             if isinstance(v, BV):
                 # bits above the field must be provably zero (else pack would raise / truncate)
+                signed = code in "bhilq"
+                top = v.bits[8 * size - 1]
                 for i in range(8 * size, WIDTH):
+                    if signed and v.bits[i] == top:
+                        continue  # sign extension: value within the signed range
                     if not v.bits[i].is_const(0):
-                        raise PyRaise(f"struct.error: value may exceed {size}-byte field (bit {i} is {v.bits[i].describe()})")
+                        raise PyRaise(f"struct.error: value may be outside the range of format '{code}' (bit {i} is {v.bits[i].describe()})")
+                if signed and not all(v.bits[i] == top for i in range(8 * size, WIDTH)) and not top.is_const(0):
+                    raise PyRaise(f"struct.error: unsigned value with the top bit set does not fit signed format '{code}'")
                 bs = [SByte(v.bits[8 * j: 8 * j + 8]) for j in range(size)]  # little-endian order
                 cells.extend(reversed(bs) if order == "big" else bs)
                 continue
@@ -351,6 +357,14 @@ class SymBytes:
 def field(name, bits):
     """A symbolic unsigned field value of `bits` bits."""
     return BV.symbols(name, bits)
+
+
+def sfield(name, bits):
+    """A symbolic signed field value (two's complement, sign-extended)."""
+    v = BV.symbols(name, bits)
+    top = v.bits[bits - 1]
+    v.bits = v.bits[:bits] + [top] * (WIDTH - bits)
+    return v
 
 
 def bv_equals_field(bv, name, nbits, signed=False):
